@@ -38,6 +38,9 @@ type FileSpec struct {
 	ErrAt     int   // >=0: Read fails with EIO once this offset is reached (-1 = never)
 	ChunkSize int   // >0: reads return at most this many bytes
 	OpenErr   error // non-nil: Open fails
+	StallAt   int           // >0: the read that reaches this offset first blocks for StallFor (a pipe whose writer pauses)
+	StallFor  time.Duration
+	stalled   bool
 }
 
 // World is the I/O world of one run.
@@ -148,6 +151,17 @@ func (f *File) Read(p []byte) (int, error) {
 		return 0, os.ErrClosed
 	}
 	f.w.mu.Lock()
+	stall := f.spec.StallAt > 0 && !f.spec.stalled && *f.pos >= f.spec.StallAt
+	if stall {
+		f.spec.stalled = true
+	}
+	d := f.spec.StallFor
+	f.w.mu.Unlock()
+	if stall {
+		simrt.Fault("file-read-stall")
+		simrt.Sleep("file.read.stall", d)
+	}
+	f.w.mu.Lock()
 	defer f.w.mu.Unlock()
 	s := f.spec
 	if s.ErrAt >= 0 && *f.pos >= s.ErrAt {
@@ -167,6 +181,9 @@ func (f *File) Read(p []byte) (int, error) {
 	}
 	if s.ErrAt >= 0 && *f.pos+n > s.ErrAt {
 		n = s.ErrAt - *f.pos
+	}
+	if s.StallAt > 0 && !s.stalled && *f.pos < s.StallAt && *f.pos+n > s.StallAt {
+		n = s.StallAt - *f.pos
 	}
 	copy(p, s.Data[*f.pos:*f.pos+n])
 	*f.pos += n
